@@ -757,6 +757,7 @@ func coordinate(c *Check, tier string, seed int64) int {
 		fatal  []*Violation
 		res    *workerResult
 		tries  int
+		killed map[string]int // vector -> times a worker was killed from outside while executing it
 	}
 	ws := make([]*wstate, nw)
 	for i := range ws {
@@ -810,6 +811,25 @@ func coordinate(c *Check, tier string, seed int64) int {
 			if _, herr := os.Stat(w.out + ".hang"); herr == nil {
 				kind = "hang"
 				os.Remove(w.out + ".hang")
+			}
+			// A worker that was killed by a signal it did not raise itself (no Go crash text, no hang marker) was
+			// killed from outside (memory pressure of the host, an operator). That is attributed to the
+			// execution only when it happens at the same execution again; otherwise the shard is restarted.
+			if kind != "hang" && vec != nil && err != nil && strings.Contains(err.Error(), "signal: killed") &&
+				!strings.Contains(stderrS, "fatal error") && !strings.Contains(stderrS, "panic:") && !strings.Contains(stderrS, "goroutine ") {
+				if w.killed == nil {
+					w.killed = map[string]int{}
+				}
+				k := fmt.Sprint(vec)
+				w.killed[k]++
+				if w.killed[k] < 2 && w.tries < 6 {
+					fmt.Fprintf(os.Stderr, "worker %d was killed from outside at %s: shard restarted\n", i, k)
+					w.tries++
+					if cmd2 := launch(i); cmd2 != nil {
+						pending[i] = cmd2
+					}
+					break
+				}
 			}
 			if vec == nil || w.tries >= 6 {
 				machineryFailure = fmt.Sprintf("worker %d died without attributable execution: %v\n%s", i, err, tail(stderrS, 2000))
